@@ -662,6 +662,12 @@ func checkRequiredness(c *Ctx, r *Report, clause string) {
 						split = true
 						sites = append(sites, w.pos(x.Pos()))
 					}
+				case "slices.Contains":
+					// membership in the split list: == on each element
+					if len(x.Args) == 2 && litString(x.Args[1]) == "required" {
+						eq = true
+						sites = append(sites, w.pos(x.Pos()))
+					}
 				case "strings.Contains", "strings.Index", "strings.HasPrefix", "strings.HasSuffix", "strings.ContainsAny", "strings.EqualFold", "regexp.MatchString":
 					bad = fmt.Sprintf("%s: %s matches the 'required' tag with %s (substring/prefix semantics): rules such as required_with=... would count as 'required' on one side only", w.pos(x.Pos()), fi.Key, cn)
 				}
@@ -701,10 +707,10 @@ func checkRequiredness(c *Ctx, r *Report, clause string) {
 		var sites []string
 		var isPtr, passed *ssa.Parameter
 		for _, p := range fi.SSA.Params {
-			switch p.Name() {
-			case "isPointer":
+			switch {
+			case paramTyped(p, "bool"):
 				isPtr = p
-			case "paramPassedIn":
+			case paramTyped(p, "definitions.ParamPassedIn"):
 				passed = p
 			}
 		}
@@ -723,6 +729,9 @@ func checkRequiredness(c *Ctx, r *Report, clause string) {
 				cnd, pol := unwrapNot(f.Cond, f.Pol)
 				if isPtr != nil && cnd == ssa.Value(isPtr) && pol {
 					okPtr = true
+				}
+				if cl, ok := cnd.(*ssa.Call); ok && pol && strings.HasPrefix(calleeName(cl), "slices.Contains") && hasConst(sliceOf(cnd), `"required"`) {
+					okTag = true // membership in the split tag list
 				}
 				if bo, ok := cnd.(*ssa.BinOp); ok {
 					sa := sliceOf(cnd)
@@ -752,19 +761,19 @@ func checkRequiredness(c *Ctx, r *Report, clause string) {
 		for _, cl := range calls {
 			sites = append(sites, w.pos(cl.Pos()))
 			args := cl.Common().Args
-			for i, want := range []string{"", "isPointerParam", "passedIn"} {
+			for i, want := range []string{"", "bool", "definitions.ParamPassedIn"} {
 				if want == "" {
 					continue
 				}
 				a := sliceOf(args[i])
 				found := false
 				for p := range a.Params {
-					if p.Name() == want {
+					if paramTyped(p, want) {
 						found = true
 					}
 				}
 				if !found {
-					viol = fmt.Sprintf("%s: argument %d of appendParamRequiredValidation is not %s", w.pos(cl.Pos()), i, want)
+					viol = fmt.Sprintf("%s: argument %d of appendParamRequiredValidation is not GetParamValidator's %s parameter", w.pos(cl.Pos()), i, want)
 				}
 			}
 		}
